@@ -657,22 +657,19 @@ class Gen:
             self.out.append(h)
 
     def singleton_arith(self, p: Production, props):
+        """`"aaa" => aaa(vm)`: the production must behave exactly as a call of the intended L1 function
+        (run on a second, identical machine); what that function does is its own L1 contract."""
         fns = ["aaa", "aad", "aam", "aas", "daa", "das", "cbw", "cwd"]
         mn = term_text(p.syms[0])
         if mn not in fns:
             return self.skipped.append(p.sig)
-        stubs = [(f"crate::instructions::arithmetic::{f}", f"{V}::body_probe_{i}") for i, f in enumerate(fns)]
         b = prelude("P", False)
-        b += f"        {V}::body_arm();\n"
+        b += f"        let mut twin = {V}::fenced_vm_with({arch_expr()});\n"
+        b += f"        crate::instructions::arithmetic::{mn}(&mut twin);\n"
         b += call(p.action, ['(0, "", 0)'], "_ret")
-        b += f"        let (b_calls, b_id, b_si, b_di, b_ax, b_flag, b_seen) = unsafe {{ ({V}::B_CALLS, {V}::B_ID, {V}::B_SI, {V}::B_DI, {V}::B_AX, {V}::B_FLAG, {V}::B_SEEN) }};\n"
-        b += A("table.called_once", "b_calls == 1")
-        b += A("table.mnemonic_selects_function", f"b_id == {fns.index(mn)}")
-        b += A("table.sees_unmodified_registers", "b_seen == Some(old)")
-        b += "        let mut exp = old;\n        exp.si = b_si; exp.di = b_di; exp.ax = b_ax; exp.flag = b_flag;\n"
+        b += f"        let exp = {V}::regs(&twin);\n        {V}::forget_vm(twin);\n"
         e, cl = epilogue("P", [], "")
-        self.add(p, props, "P", b + e, ["table.called_once", "table.mnemonic_selects_function", "table.sees_unmodified_registers"] + cl,
-                 stubs=stubs, replay={"kind": "table", "mn": mn})
+        self.add(p, props, "P", b + e, cl, replay={"kind": "table", "mn": mn})
 
     # ---- addressing: every derivation of memory_addr, and LEA on top of it ------------------
     ADDR_NTS = set()
